@@ -99,6 +99,22 @@ def run_topo(rng, thorough, out):
         adj.append({"els": c["els"], "adj": [bool(elements_adjacent.py_func(el, i, j))
                                              for i in range(el.shape[1]) for j in range(el.shape[1])]})
     out["adjacent"] = adj
+    # Space.get_elements_by_color() against the colour map, on whole grids and on segments (supports)
+    import bempp_cl.api as api
+    cols = []
+    for tag, (v, e) in (("octahedron", M.octahedron()), ("screen", M.screen(3)), ("cube12", M.cube12())):
+        dom = rng.integers(0, 3, size=e.shape[1]).astype("uint32")
+        dom[0] = 0
+        g = api.Grid(v, e, dom)
+        for kind, deg in (("DP", 0), ("P", 1)):
+            for segs in (None, [0], [1, 2]):
+                if segs is not None and not any(d in segs for d in dom):
+                    continue
+                sp = api.function_space(g, kind, deg, segments=segs) if segs else api.function_space(g, kind, deg)
+                si, ip = sp.get_elements_by_color()
+                cols.append({"cm": [int(c) for c in sp.color_map], "sorted": [int(x) for x in si], "indexptr": [int(x) for x in ip],
+                             "support": [bool(b) for b in sp.support]})
+    out["colors"] = cols
 
 
 def run_rule(rng, thorough, out):
